@@ -84,6 +84,50 @@ def fmtCli (o : Cli.Outcome) : String :=
     | none => "-"
   s!"exit={o.exit} err={(o.err.map cliErr).getD "-"} stdout={hexOrDash o.stdout} sender={sender} files={files}"
 
+/-- stand-ins for the functions of commands.rs that main.rs calls: each hands the request it was called with back to the
+    caller through its error value (`try_main` propagates it with `?`) -/
+def recReq (r : Cli.Request) (sys : RsCli.Sys) : RsCli.Sys × Except RsCli.AnyErr Unit :=
+  (sys, .error (.msg "REQ".toList ((repr r).pretty 100000).toList))
+
+def recApi : CliSrc.commands.Api where
+  encrypt := fun sys o => recReq (.encrypt o.infile o.to o.from o.outfile o.keyring o.env_pass) sys
+  decrypt := fun sys o => recReq (.decrypt o.infile o.to o.outfile o.keyring o.env_pass) sys
+  gen_key := fun sys o e => recReq (.keyGen o e) sys
+  change_pass := fun sys k e => recReq (.changePass k e) sys
+  extract_pub := fun sys k e => recReq (.extractPub k e) sys
+  pass_encrypt := fun sys o => recReq (.passEncrypt o.infile o.outfile o.env_pass) sys
+  pass_decrypt := fun sys o => recReq (.passDecrypt o.infile o.outfile o.env_pass) sys
+
+/-- run the generated `try_main` on an argument vector and name the request it acted on -/
+def cliParseSrc (args : List (List Char)) : String :=
+  let sys : RsCli.Sys := { args := args.map .unicode, world := { files := [], env := [], stdin := [] }, prims := concretePrims, rnd := ⟨[], []⟩ }
+  let (sys', r) := CliSrc.try_main recApi sys
+  match r with
+  | .error (.msg fmt text) =>
+    if fmt == "REQ".toList && sys'.stdout.isEmpty then String.ofList text
+    else if fmt == "{}\n{}".toList && sys'.stdout.isEmpty then (repr Cli.Request.usageError).pretty
+    else "unexpected error " ++ String.ofList fmt
+  | .error _ => "unexpected error"
+  | .ok () =>
+    if sys'.stdout == (CliSrc.print_help sys).stdout then (repr Cli.Request.help).pretty
+    else if sys'.stdout == (CliSrc.print_version sys).stdout then (repr Cli.Request.version).pretty
+    else "unexpected output"
+
+/-- stand-in for the streaming library functions (not given a meaning in the translation): every call fails -/
+def failingLib : RsCli.StreamLib RsCli.DynRead CliSrc.DynWrite where
+  key_encrypt := fun sys r w _ _ _ _ _ _ _ => (sys, r, w, .error (.Other "not modelled".toList))
+  pass_encrypt := fun sys r w _ _ _ => (sys, r, w, .error (.Other "not modelled".toList))
+  key_decrypt := fun sys r w _ _ _ => (sys, r, w, .error (.Other "not modelled".toList))
+  pass_decrypt := fun sys r w _ _ => (sys, r, w, .error (.Other "not modelled".toList))
+
+/-- run the generated program; `libcall=1` when a streaming library function was reached -/
+def cliRunSrc (P : Prims) (rnd : Cli.Rand) (w : Cli.World) (args : List (List Char)) : String :=
+  let sys : RsCli.Sys := { args := args.map .unicode, world := w, prims := P, rnd := rnd }
+  let s := CliSrc.main (CliSrc.commands.api failingLib) sys
+  let files := if s.world.files.isEmpty then "-" else ",".intercalate (s.world.files.map fun (p, b) => hexOfStr p ++ ":" ++ hexOrDash b)
+  let reached := s.stderr != [] && (String.fromUTF8? (ByteArray.mk s.stderr.toArray)).any fun t => (t.splitOn "crypting...failed.").length > 1
+  s!"exit={s.exit.getD 0} stdout={hexOrDash s.stdout} files={files} libcall={if reached then 1 else 0} outoffuel={if s.outOfFuel then 1 else 0}"
+
 /-- scrypt results for (password, salt) pairs seen so far -/
 abbrev KdfCache := IO.Ref (List ((Bytes × Bytes) × Bytes))
 
@@ -388,6 +432,21 @@ def handle (kc : KdfCache) (line : String) : IO String := do
   | ["cli_parse", argv] =>
     let args := if argv == "-" then [] else (argv.splitOn ",").filterMap fun a => if a == "" then some [] else strOfHex a
     pure ("ok " ++ (repr (Cli.parseArgv args)).pretty 100000)
+  | ["cli_run_src", files, env, stdin, ra, rb, argv] =>
+    -- the GENERATED program (`CliSrc.main` over the translated commands of commands.rs) on this world and argument vector,
+    -- printed like `cli_run` (the error class and the sender line are not produced by the translated code: `-`).
+    -- The streaming library functions are not given a meaning in the translation: here they fail, so only the
+    -- commands that do not stream (`key …`, help, version, usage errors, early failures) can be compared with `cli_run`.
+    let w : Cli.World := { files := parsePairs files,
+                           env := (parsePairs env).filterMap fun (k, v) => (String.fromUTF8? (ByteArray.mk v.toArray)).map fun s => (k, s.toList),
+                           stdin := unhex stdin }
+    let args := if argv == "-" then [] else (argv.splitOn ",").filterMap fun a => if a == "" then some [] else strOfHex a
+    pure (cliRunSrc P { a := unhex ra, b := unhex rb } w args)
+  | ["cli_parse_src", argv] =>
+    -- the GENERATED `try_main` (KestrelModel/GeneratedCli.lean) on this argument vector, with recording stand-ins for the
+    -- functions of commands.rs; printed like `cli_parse`
+    let args := if argv == "-" then [] else (argv.splitOn ",").filterMap fun a => if a == "" then some [] else strOfHex a
+    pure ("ok " ++ cliParseSrc args)
   | ["hkdf_file", pk, h] => pure ("ok " ++ hex (P.hkdfFile (unhex pk) (unhex h)))
   | ["b64enc", d] => pure ("ok " ++ hexOrDash (B64.encode (unhex d)))
   | ["b64dec", s] => pure (fmtOpt (B64.decode (unhex s)))
